@@ -113,8 +113,8 @@ def run_encrypt(ctx, tr, d, key: bytes, keyname, size, seed, kid, halg, via, k, 
     fw.write_bytes(pt)
     core.through_link(fw, (k * 3 + k // 5) % 5 == 2)
     fw = core.through_dotdot(fw, k % 7 == 3)
-    out = out or d / f"out{k}"   # a given directory still holds the artifacts of the previous run
-    out.mkdir(exist_ok=True)
+    out = out or d / f"out{k}" / core.odd_name(k)   # (a given directory still holds the artifacts of the previous run)
+    out.mkdir(exist_ok=True, parents=True)
     if via == "cli":
         subprocess.run(core.cli_cmd("encrypt", "encrypt-and-generate", "--firmware", fw, "--key-name", keyname, "--key-id",
                                     core.num(kid), "--context", d / "keys", "--hash-alg", halg, "--kw-alg", "direct",
